@@ -230,7 +230,8 @@ _NAMES = ["wf", "wf two", "wf_two", "a b", "a  b", "x/y", "A", "a"]
 
 
 def _gen(nat, rng, n):
-    for _ in range(n):
+    # every case runs the whole diagram pipeline once per streamed name: a third of the requested number of cases is plenty
+    for _ in range(max(60, n // 3)):
         names = rng.sample(_NAMES, rng.randrange(0, 4))
         streams = [[nm, [[rng.choice("ABCD") for _ in range(rng.randrange(1, 4))] for _ in range(rng.randrange(1, 3))]] for nm in names if "/" not in nm]
         loaded = {nm: [[rng.choice("ABCD") for _ in range(rng.randrange(1, 4))] for _ in range(rng.randrange(1, 3))] for nm in rng.sample(_NAMES, rng.randrange(0, 3))}
